@@ -66,6 +66,7 @@ constexpr size_t kMaxPayload = (kLimit - kOverhead) < 200000 ? (kLimit - kOverhe
 inline Stats g_stats;
 inline std::mutex g_stats_mu;
 inline uint64_t g_seed = 1;
+inline std::string g_label; // --label: property on whose behalf the family is run (attribution of shared oracles)
 inline bool g_mode_s = false;
 inline std::atomic<uint64_t> g_hook_counts[64];
 inline std::atomic<uint64_t> g_idle_cycles{0};
